@@ -53,6 +53,35 @@ theorem ts_never_future {t r T P} (hwf : FilesWF r) (hts : TsWF t r) (h : planFi
   have := hts f (hfiles f hf).1 n hmin hmax
   omega
 
+/-- **No selected file reaches into the future.** Under the invariant, the planner's timestamp
+    filter never selects a file that contains a transaction stamped at or after `T`. -/
+theorem ts_no_future_file {t r T P} (hwf : FilesWF r) (hts : TsWF t r) (h : planFiles r (atTime T) = .ok P) :
+    ∀ f ∈ P, ∀ n, f.min ≤ n → n ≤ f.max → t n < T := by
+  intro f hf n hmin hmax
+  obtain ⟨_, _, _, hfiles, _, hcr⟩ := C08.planFiles_sound hwf h
+  have := hcr T rfl f hf
+  have := hts f (hfiles f hf).1 n hmin hmax
+  omega
+
+/-- Witness replica: TXID 2 replicated at 30, but its snapshot `1..2` stamped 20 (e.g. with a
+    time sampled before the snapshot waited for the sync that produced TXID 2). -/
+def exBadT (n : Nat) : Nat := if n = 2 then 30 else 10
+
+def exBad : List FileInfo := [⟨0, 1, 1, 10⟩, ⟨0, 2, 2, 30⟩, ⟨9, 1, 2, 20⟩]
+
+/-- **The invariant is necessary.** On a well-formed replica that violates `TsWF`, the planner
+    does select, for `T = 25`, a file containing TXID 2 which was replicated at 30. -/
+theorem ts_future_without_invariant :
+    FilesWF exBad ∧ ¬ TsWF exBadT exBad ∧ planFiles exBad (atTime 25) = .ok [⟨9, 1, 2, 20⟩] ∧
+    (2 ≤ chainEnd 0 [(⟨9, 1, 2, 20⟩ : FileInfo)] ∧ 25 ≤ exBadT 2) := by
+  refine ⟨?_, ?_, by decide, by decide⟩
+  · intro f hf
+    simp [exBad] at hf
+    rcases hf with h | h | h <;> subst h <;> simp [snapshotLevel]
+  · intro h
+    have := h ⟨9, 1, 2, 20⟩ (by simp [exBad]) 2 (by decide) (by decide)
+    simp [exBadT] at this
+
 theorem validChain_mono {r T₁ T₂ Q} (hT : T₁ ≤ T₂) (h : C08.ValidChain (listLevel r) (atTime T₁) Q) :
     C08.ValidChain (listLevel r) (atTime T₂) Q :=
   ⟨h.nonempty, h.chain, fun f hf => ⟨(h.files f hf).1, by
